@@ -469,6 +469,8 @@ class Verifier:
     # ---------------------------------------------------------------
     def run(self):
         t0 = time.time()
+        self.t0 = t0
+        self.budget_s = self.job.opts.get("budget_s", 1500)
         res = self.result
         try:
             if self.mode == "prove":
@@ -506,6 +508,8 @@ class Verifier:
             n += 1
             if n > self.job.max_paths:
                 raise Budget(f"more than {self.job.max_paths} paths")
+            if time.time() - self.t0 > self.budget_s:
+                raise Budget(f"wall-time budget of {self.budget_s}s for this job exhausted")
             ctx = Ctx(dec, self.job.opts.get("solver_timeout_ms", self.timeout_ms))
             ctx.fresh_mode = bool(self.job.opts.get("fresh_solver"))
             ctx.eq_is_incomparable = bool(self.job.opts.get("eq_is_incomparable"))
@@ -547,6 +551,8 @@ class Verifier:
                 n += 1
                 if n > self.job.max_paths:
                     raise Budget(f"more than {self.job.max_paths} paths")
+                if time.time() - self.t0 > self.budget_s:
+                    raise Budget(f"wall-time budget of {self.budget_s}s for this job exhausted")
                 ctx = Ctx(dec, self.timeout_ms)
                 self.cur_snap = snap
                 self.new_snaps = []
@@ -932,6 +938,22 @@ class Verifier:
             if hook is not None:
                 hook(self, ctx, ev)
             d = f"{cm.name}.{op}({','.join(describe(x) for x in args)})"
+            is_lock = bool(job.opts.get("lock_contract")) and cm.name.startswith("lock")
+            if is_lock:
+                # lock contract: __aenter__ returns holding the lock (or the waiting task is cancelled: not acquired);
+                # __aexit__ releases and returns falsy; neither raises by itself
+                if op == "enter":
+                    can_cancel = job.faults and not env.fault_used and "cancel" in job.opts.get("fault_kinds", ("raise", "cancel"))
+                    c = ["ret", "cancel"][ctx.choose(2, f"lock enter {cm.name}")] if can_cancel else "ret"
+                    self.trace.append((d, c))
+                    if c == "ret":
+                        cm.held += 1
+                        return ("ret", Opaque(ctx.fresh(Val, f"{cm.name}_value")))
+                    env.fault_used = True
+                    return ("raise", ExcVal("Cancelled", ident=("cancel-at-lock", cm.name, ctx.evseq), origin="env"))
+                cm.held -= 1
+                self.trace.append((d, "released"))
+                return ("ret", False)
             if op == "enter":
                 opts = ["ret", "raise"]
                 c = opts[ctx.choose(2, f"cm enter {cm.name}")]
